@@ -192,6 +192,13 @@ type sideMon struct {
 	fwdNoStream map[uint16]bool // a FORWARD-TSN named this stream when the endpoint had no such stream
 	fwdUMID  map[uint16]uint32 // highest unordered MID listed by an I-FORWARD-TSN delivered here, per stream
 	ackedBytes map[uint16]int // user bytes acknowledged (cumulatively or by gap block) per stream
+	c19          c19State
+	stepAckPkts  int       // packets carrying a SACK delivered to this side in the current step
+	stepRTTCands []float64 // RTT samples (ms) of newly acknowledged chunks that were sent exactly once
+	stepHB       bool      // a HEARTBEAT-ACK was delivered in the current step
+	needAckNow   bool      // the pending acknowledgement must be immediate (gap / duplicate)
+	needAckNowAt time.Duration
+	needAckWhy   string
 	heldHist []heldPoint // history of the queued-byte counter sum (value after each step in which it changed)
 	snapCwnd uint32
 	dlvInStep int
@@ -545,9 +552,43 @@ func (m *wireMon) onDeliver(to int, p *wirePacket, data []byte) {
 		W = accTSNWindow(a)
 	}
 	cur := sm.model
+	nData, nDup := 0, 0
+	for _, c := range q.chunks {
+		if c.typ == wtHBACK {
+			sm.stepHB = true
+		}
+		if c.typ == wtSACK {
+			sm.stepAckPkts++
+			// RTT candidates: chunks newly acknowledged by this SACK that were put on the wire exactly once
+			if !(sm.ack.valid && wSNA32LT(c.cumTSN, sm.ack.cum)) {
+				nowMs := float64(m.w.now()) / float64(time.Millisecond)
+				for _, ti := range sm.sent {
+					if ti.acked || len(ti.times) != 1 {
+						continue
+					}
+					hit := wSNA32LTE(ti.tsn, c.cumTSN)
+					if !hit {
+						for _, g := range c.gaps {
+							if wSNA32GTE(ti.tsn, c.cumTSN+uint32(g.start)) && wSNA32LTE(ti.tsn, c.cumTSN+uint32(g.end)) {
+								hit = true
+								break
+							}
+						}
+					}
+					if hit {
+						sm.stepRTTCands = append(sm.stepRTTCands, nowMs-float64(ti.times[0])/float64(time.Millisecond))
+					}
+				}
+			}
+		}
+	}
 	for _, c := range q.chunks {
 		switch {
 		case c.isData():
+			nData++
+			if cur != nil && cur.init && (wSNA32LTE(c.tsn, cur.cum) || cur.set[c.tsn]) {
+				nDup++
+			}
 			sm.dlv[c.tsn] = true
 			if cur != nil && cur.init {
 				nm := cur.clone()
@@ -557,6 +598,7 @@ func (m *wireMon) onDeliver(to int, p *wirePacket, data []byte) {
 			}
 			if sm.needAckSince < 0 {
 				sm.needAckSince = m.w.now()
+				sm.needAckNow, sm.needAckWhy = false, ""
 			}
 		case c.typ == wtFORWARDTSN || c.typ == wtIFORWARDTSN:
 			if !sm.haveFwd || wSNA32GT(c.newCumTSN, sm.maxFwd) {
@@ -620,6 +662,28 @@ func (m *wireMon) onDeliver(to int, p *wirePacket, data []byte) {
 				cur = sm.model
 			}
 		}
+	}
+	if sm.ample {
+		was := sm.needAckNow
+		sm.ackUrgency(cur, nData, nDup)
+		if sm.needAckNow && !was {
+			sm.needAckNowAt = m.w.now()
+		}
+	}
+}
+
+// ackUrgency: after a DATA packet, RFC 9260 6.2 wants the SACK at once if it left a gap or was a duplicate.
+func (sm *sideMon) ackUrgency(cur *rxModel, nData, nDup int) {
+	if nData == 0 || sm.needAckSince < 0 {
+		return
+	}
+	if sm.needAckNow {
+		return
+	}
+	if cur != nil && cur.init && len(cur.set) > 0 {
+		sm.needAckNow, sm.needAckWhy = true, "left a gap in the received TSNs"
+	} else if nDup == nData {
+		sm.needAckNow, sm.needAckWhy = true, "contained only duplicate DATA chunks"
 	}
 }
 
@@ -729,6 +793,7 @@ func (m *wireMon) checkSack(E int, p *wirePacket, c *wChunk) {
 		}
 	}
 	sm.needAckSince = -1
+	sm.needAckNow = false
 	// completeness against the reference receiver (only when nothing may legitimately be refused)
 	if sm.model != nil && sm.model.init && sm.ample && !sm.sawCorrupt && m.props["C05.complete"] {
 		cands := append([]*rxModel{sm.model}, sm.inProgress...)
@@ -863,6 +928,13 @@ func (m *wireMon) onStep() {
 	}
 	if m.props["C15"] {
 		m.checkBufferedIdle()
+	}
+	if m.props["C19"] {
+		for side := 0; side < 2; side++ {
+			if ep := w.eps[side]; ep != nil && ep.assoc != nil && w.viol == nil {
+				m.checkTimersStep(side)
+			}
+		}
 	}
 }
 
